@@ -12,10 +12,10 @@ Binding:  the real twisted.internet.task.Clock driven through callLater / IDelay
 
 META = dict(
     id="C09",
-    specs=["TimersAbs.tla", "TimersProp.tla", "TimersAbsMC.tla", "ClockImpl.tla", "ClockImplMC.tla", "TimersTrace.tla", "TimersSim.tla"],
+    specs=["TimersAbs.tla", "TimersProp.tla", "TimersAbsMC.tla", "ClockImpl.tla", "ClockImplMC.tla", "ClockImplTrace.tla", "TimersTrace.tla", "TimersSim.tla"],
     technique="TLA+ abstract timer semantics + property invariants (TLC exhaustive), TLA+ transcription of task.Clock's sorted-list algorithm checked by TLC to refine it (exhaustive + deep simulation), TLC trace validation of real task.Clock executions (exhaustive short, random long, TLC-generated)",
     level_text="TLC checks on the specification that the abstract semantics implies every clause (exactly once iff not cancelled, during the first advance reaching the scheduled time, nondecreasing scheduled time, creation order for equal never-rescheduled times, getDelayedCalls = pending) for all histories within the stated bounds, that Clock's algorithm as transcribed refines that semantics, and validates every recorded execution of the real task.Clock as a behaviour of the specification with every logged observable matched.",
-    level_note="Trusted: TLC, the adapter's logging. advance() is not called from inside a running call and calls do not raise (neither is part of the property). Histories beyond the exhaustive depth are sampled. ClockImpl is a hand transcription of task.py. With negative delay() amounts the nondecreasing clause cannot hold for any implementation; for such histories the order clause is read as 'no eligible call is scheduled earlier'.",
+    level_note="Trusted: TLC, the adapter's logging. advance() is not called from inside a running call and calls do not raise (neither is part of the property). Histories beyond the exhaustive depth are sampled. ClockImpl is a hand transcription of task.py, bound to it by replaying recorded executions through it step by step (impl_drift). With negative delay() amounts the nondecreasing clause cannot hold for any implementation; for such histories the order clause is read as 'no eligible call is scheduled earlier'.",
     design_ref="2.4 C09",
     rule="history = top-level operations (callLater with a script of nested operations, cancel, reset, delay, getDelayedCalls, advance) on one Clock; distinct = hash of (cfg, events); non-trivial = at least two different event kinds",
 )
@@ -39,7 +39,7 @@ def run(ctx):
                                         ("NGdc", "IGdc"), ("NAdvance", "IAdvance"), ("NLoopRun", "ILoopRun"), ("NRunEnd", "IRunEnd"),
                                         ("NAdvanceEnd", "IAdvanceEnd")])
     r = ctx.mc("ClockImplMC", "ClockImplMC.sim.cfg", workers=2, coverage=False, label="simulate",
-               args=["-simulate", "num=%d" % ctx.pick(500, 60000), "-depth", "70", "-seed", str(ctx.seed)])
+               args=["-simulate", "num=%d" % ctx.pick(300, 60000), "-depth", "70", "-seed", str(ctx.seed)])
     if not r.ok:
         raise MachineryError("ClockImpl deep simulation: refinement of TimersAbs fails: %s\n%s" % (r.error, "".join(r.cex[-3:])[:3000]))
     A.run_flavour(ctx, "clock", "task.Clock")
